@@ -676,6 +676,36 @@ def _d11(chk, fb):
     chk.floor("D11", "members written by the derivative passes", n, 10)
 
 
+def _d12(chk, fb):
+    """fireParameterChanged is not the only way to invalidate the forward tables: any other method of a likelihood class that
+    re-runs the forward pass (setBreakPoints) changes what the derivatives are, so it owes the same memo-key resets (D1)"""
+    keys = _memo_keys(fb)
+    subs = [c for c in fb.subclasses(AH) if not fb.classes[c].get("abstract")]
+    n = 0
+    for cls in sorted(subs):
+        for f in fb.concrete_fns():
+            if f.cls != cls or f.body is None or f.name in ("fireParameterChanged", cls.split("::")[-1]) or f.name.startswith(("compute", "~", "operator")):
+                continue
+            recompute = [c for c in f.calls() if c["callee"]["name"] in ("computeForward_", "computeLikelihood") and ("obj" not in c or strip(f.obj(c))["k"] == "CXXThisExpr")]
+            if not recompute:
+                continue
+            n += 1
+            cfg = f.cfg
+            for key, (getter, comp) in sorted(keys.items()):
+                kern = [t for t in [fb.fns.get(k) for k in [comp["key"]] + list(fb.overriders(comp["key"]))] if t is not None and t.cls == cls]
+                if kern and _always_throws(fb, kern[0]):
+                    chk.proved("D12", f.key, "memo-key-reset:" + key, f.loc(), "exempt: %s always throws (derivative not offered by this class)" % kern[0].qname)
+                    continue
+                resets = _assign_nodes(f, key, '""')
+                if resets and _covers(cfg, f, recompute, resets):
+                    chk.proved("D12", f.key, "memo-key-reset:" + key, f.loc(resets[0]), "%s reset on every path that re-runs the forward pass" % key)
+                else:
+                    chk.refuted("D12", f.key, "memo-key-reset:" + key, f.loc(recompute[0]),
+                                "%s re-runs the forward pass but leaves the memo key '%s' of %s in place: a derivative requested again for the same variable is served from the tables computed before the call" % (f.name, key, getter.qname),
+                                witness={"history": "getFirstOrderDerivative(v); %s(...); getFirstOrderDerivative(v)  -> the second answer equals the first although the likelihood changed" % f.name})
+    chk.floor("D12", "methods other than fireParameterChanged that re-run the forward pass", n, 3)
+
+
 def run(chk, fb, tier):
     chk.rule("D1", "every fireParameterChanged below AbstractHmmLikelihood resets the derivative memo keys and clears the backward lazy flags on every path that recomputes the forward pass")
     chk.rule("D2", "a method setting upToDate_ = true has written every member that some getter returns under 'if (!upToDate_)'; fireParameterChanged clears the flag unconditionally")
@@ -697,6 +727,8 @@ def run(chk, fb, tier):
     _d10(chk, fb)
     chk.rule("D11", "the first- and second-derivative passes of a likelihood class write disjoint members, and a member accumulated with += in a loop of a pass is assigned in that pass before the loop")
     _d11(chk, fb)
+    chk.rule("D12", "every method other than fireParameterChanged that re-runs the forward pass on this object (setBreakPoints) resets the derivative memo keys on every such path")
+    _d12(chk, fb)
     from . import argswap as _argswap
     chk.rule("DA", "argument/parameter name agreement at forwarding calls in the anchored units (same-typed parameters must not be swapped)")
     _af = ('src/Bpp/Numeric/Hmm/HmmLikelihood.h', 'src/Bpp/Numeric/Hmm/HmmLikelihood.cpp', 'src/Bpp/Numeric/Hmm/RescaledHmmLikelihood.cpp', 'src/Bpp/Numeric/Hmm/LowMemoryRescaledHmmLikelihood.cpp', 'src/Bpp/Numeric/Hmm/LogsumHmmLikelihood.cpp', 'src/Bpp/Numeric/Hmm/AbstractHmmTransitionMatrix.cpp', 'src/Bpp/Numeric/Hmm/FullHmmTransitionMatrix.cpp', 'src/Bpp/Numeric/Hmm/AutoCorrelationTransitionMatrix.cpp', 'src/Bpp/Numeric/NumTools.h')
